@@ -1,7 +1,7 @@
 """C18 - named enum rules and regex types behave like their inline forms. DESIGN.md section 3 / C18."""
 import json
 import vlib
-from checks import semcommon
+from checks import semcommon, jsongraph
 
 PROP = "C18"
 
@@ -28,12 +28,25 @@ def run(tier, argv):
         m = json.loads(l)
         e = lines[m["line"] - 1]
         bad.append({"kind": "regex", "text": e["text"], "what": "Example() %r does not match the pattern" % bytes(e["example"]).decode("latin1")})
+    # the token of a regex type byte by byte: reference automaton of RegexText walked through regex.New(..).Check / Len
+    gpr, gr = jsongraph.export_regex_graph(work, rep, "a", 6 if quick else 9)
+    rout = work.path("rtoken.ndjson")
+    p = vlib.run_harness(hbin, ["c05graph", "-graph", gpr, "-out", rout, "-sut", "regex"], timeout=3000)
+    if p.returncode != 0:
+        raise vlib.Infra("c05graph (regex) failed: " + p.stderr.decode()[-2000:])
+    rs = semcommon.summary_of(p.stderr)
+    rep.notes["regex_token"] = {k: rs[k] for k in ("states", "transitions", "tests", "unspecified", "lenient", "strict", "mismatches")}
+    for m in vlib.read_ndjson(rout):
+        if m["what"] == "len":
+            bad.append({"kind": "regex", "text": bytes(m["bytes"]).decode("latin-1"), "what": "%s, the library says %s" % (m["want"], m["got"].get("msg") or m["got"].get("pos"))})
+        elif m["what"] == "panic":
+            bad.append({"kind": "regex", "text": bytes(m["bytes"]).decode("latin-1"), "what": "panic / foreign error: " + json.dumps(m["got"])[:200]})
     with open(cases) as f:
         for i, l in enumerate(f):
             if i % 170 == 3:
                 c = json.loads(l)
                 rep.sample({k: c[k] for k in ("kind", "items", "layout", "dup") if k in c} if c["kind"] == "enum" else {"kind": "regex", "re": c["re"]})
-    rep.cov["evaluations"] = s["validations"] + len(lines)
+    rep.cov["evaluations"] = s["validations"] + len(lines) + rs["tests"]
     rep.cov["distinct_nontrivial"] = nc
     rep.cov["traces_validated_against_impl"] = s["validations"] + len(lines)
     rep.cov["exhaustive"] = True
